@@ -50,3 +50,15 @@ Definition cut_stream (f : finished) (k : nat) : list N :=
 
 Definition cut_client (opq : N -> list N -> bool) (ignore_io : bool) (f : finished) (k : nat) : outcome :=
   client opq ignore_io (cut_stream f k) Eof.
+
+(* (c') HOW a cut connection ends.  When the server process exits the kernel closes its sockets.  A socket left as
+   accept() returned it is released in an orderly way: the client's pending read returns end-of-file (Eof), the one
+   ending on which handle_compile_response falls back to a local compile.  A socket configured to ABORT on close
+   (SO_LINGER with a zero timeout) is reset instead: the client's read fails with ECONNRESET.  net.rs hands the
+   accepted stream on untouched (TCP and Unix alike). *)
+Definition close_ending (abort_on_close : bool) : ending := if abort_on_close then Reset else Eof.
+
+Definition accepted_abort_on_close : bool := false.
+
+Definition cut_client_ending (opq : N -> list N -> bool) (ignore_io : bool) (f : finished) (k : nat) (e : ending) : outcome :=
+  client opq ignore_io (cut_stream f k) e.
